@@ -31,5 +31,9 @@ Record config := {
   c_offline_enable_lag : Z;            (* seconds *)
   c_offline_disable_lag : Z;           (* seconds *)
   c_offline_enable_interval : Z;       (* ns *)
-  c_offline_max_pct : Z
+  c_offline_max_pct : Z;
+  c_repair_aggressive : bool;
+  c_repair_max_attempts : Z;
+  c_repair_cooldown : Z;               (* ns *)
+  c_stream_from_reasonable_lag : Z     (* seconds *)
 }.
